@@ -307,7 +307,7 @@ func c06Child(r *ev.Run, batch int) {
 				report(r, m, pre, ops, fs, judge, hist)
 			}
 			hist = append(hist, cloneOps(ops))
-			if batch == 2 && si == 0 && r.NeedSample() && len(ops) > 1 {
+			if r.NeedSample() && len(ops) > 1 {
 				r.Sample(map[string]interface{}{"schema": string(s.JSON()), "transaction": opsJSON(ops)})
 			}
 			post, err := m.Snapshot(e.DB)
